@@ -365,7 +365,8 @@ theorem filterMap_eq_map_of {α β : Type} {f : α → Option β} {g : α → β
 
 /-! ### the order-free characterisation of the single candidate -/
 
-/-- every trait path in the bounds of the block can be compared (`TraitBound::eq` does not hit `unreachable!()`) -/
+/-- every trait path in the bounds of the block can be compared: at least one segment, every segment has an identifier,
+    the last one has no, angle-bracketed or — since /repo 94aac73 — parenthesized arguments (`wfPath`) -/
 def wfBlk (b : Blk) : Bool := b.raw.all (fun rb => wfPath rb.tr)
 
 /-- the member's own row for a key: the block's bounds folded per key, looked up with `keyEq` -/
